@@ -4,6 +4,8 @@ package main
 
 import (
 	"fmt"
+	"github.com/tdakkota/docker-logql/internal/logql"
+	"github.com/tdakkota/docker-logql/internal/zzverif/mockq"
 	"sort"
 
 	"github.com/tdakkota/docker-logql/internal/logql/logqlengine"
@@ -15,6 +17,16 @@ import (
 type c19Input struct {
 	Relation string   `json:"relation"`
 	Queries  []string `json:"queries"`
+	// Dup: evaluated over the small data set with repeated (timestamp, line) records instead of C01's alphabet
+	Dup bool `json:"dup,omitempty"`
+	// Full: the storage advertises every label and line operator (whatever the engine offloads is evaluated there)
+	Full bool `json:"full,omitempty"`
+}
+
+// c19Dup: records that repeat (same timestamp, same line, same labels), adjacent and not.
+var c19Dup = []mockq.Rec{
+	{TS: 1 * sec, Line: "tick a"}, {TS: 1 * sec, Line: "tock b"}, {TS: 1 * sec, Line: "tick a"},
+	{TS: 2 * sec, Line: "a"}, {TS: 2 * sec, Line: "a"}, {TS: 2 * sec, Line: "b"}, {TS: 3 * sec, Line: "ab"}, {TS: 2 * sec, Line: "a"},
 }
 
 var c19Bases = []string{
@@ -48,7 +60,7 @@ func c19Filters() []c19Filter {
 	for _, s := range []string{"", "a", "é", "a|b", "^$", "(?i)A", ".", "\\d+", "^.*=", "[^a]$", "^a$", "^ab$", "\\Aa\\z", "^b", "b$", "^(a)$"} {
 		out = append(out, c19Filter{text: "|~ " + q(s), neg: "!~ " + q(s)})
 	}
-	for _, s := range []string{"10.0.0.1", "10.0.0.1-10.0.0.5", "10.0.0.0/24", "::1", "192.168.0.0/16"} {
+	for _, s := range []string{"10.0.0.1", "10.0.0.1-10.0.0.5", "10.0.0.0/24", "::1", "192.168.0.0/16", "fe80::/10", "ff00::/8"} {
 		out = append(out, c19Filter{text: `|= ip("` + s + `")`, neg: `!= ip("` + s + `")`})
 	}
 	for _, m := range [][2]string{{"app", "x"}, {"y", "a"}, {"y", ""}, {"env", "p"}, {"missing", ""}, {"msg", "a"}, {"x", "007"}, {"x", "5.0"}, {"y", "b"}} {
@@ -67,8 +79,19 @@ func c19Filters() []c19Filter {
 	return out
 }
 
-func c19Eval(query string) (map[string]int, string) {
-	res := evalLog(c01All, logqlengine.QuerierCapabilities{}, query, -1)
+func c19Eval(query string, dup, full bool) (map[string]int, string) {
+	data := c01All
+	if dup {
+		data = c19Dup
+	}
+	var caps logqlengine.QuerierCapabilities
+	if full {
+		for _, op := range []logql.BinOp{logql.OpEq, logql.OpNotEq, logql.OpRe, logql.OpNotRe} {
+			caps.Label.Add(op)
+			caps.Line.Add(op)
+		}
+	}
+	res := evalLog(data, caps, query, -1)
 	if res.Panic != "" {
 		return nil, "panic: " + res.Panic
 	}
@@ -123,7 +146,7 @@ func c19Check(r *vkit.Run, in c19Input) (nontrivial bool) {
 	r.Begin("C19", in)
 	var ms []map[string]int
 	for _, q := range in.Queries {
-		m, bad := c19Eval(q)
+		m, bad := c19Eval(q, in.Dup, in.Full)
 		r.Eval()
 		r.Step(1)
 		if bad != "" {
@@ -215,7 +238,28 @@ func c19Run(r *vkit.Run) {
 			}
 		}
 	}
-	r.Note("bounds", fmt.Sprintf("%d base pipelines x %d filters (line filters with literal, regex and ip() needles incl. empty, non-UTF-8 and anchors; string, regex, number, duration, bytes and ip label filters) and all their pairs; relations: subset, partition by negation, commutation, idempotence, and = intersection, or = union, |= \"\" = identity; data = the %d-record alphabet of C01 with unique timestamps; storage offloads nothing", len(c19Bases), len(fs), len(c01All)))
+	// a storage that accepts everything: and / or / partition over the stream's own labels, filters first in the pipeline
+	for i, f := range fs {
+		if f.neg != "" {
+			visit(c19Input{Relation: "partition", Queries: []string{`{} ` + f.text, `{} ` + f.neg, `{}`}, Full: true})
+		}
+		for j, g := range fs {
+			if f.pred != "" && g.pred != "" && i != j {
+				visit(c19Input{Relation: "and", Queries: []string{`{} | ` + f.pred + " and " + g.pred, `{} ` + f.text, `{} ` + g.text}, Full: true})
+				visit(c19Input{Relation: "or", Queries: []string{`{} | ` + f.pred + " or " + g.pred, `{} ` + f.text, `{} ` + g.text}, Full: true})
+			}
+		}
+	}
+	// repeated records: sub-multiset, partition and commutation count multiplicities
+	for _, f := range fs {
+		base := `{}`
+		visit(c19Input{Relation: "subset", Queries: []string{base + " " + f.text, base}, Dup: true})
+		visit(c19Input{Relation: "equal", Queries: []string{base + " " + f.text + " " + f.text, base + " " + f.text}, Dup: true})
+		if f.neg != "" {
+			visit(c19Input{Relation: "partition", Queries: []string{base + " " + f.text, base + " " + f.neg, base}, Dup: true})
+		}
+	}
+	r.Note("bounds", fmt.Sprintf("%d base pipelines x %d filters (line filters with literal, regex and ip() needles incl. empty, non-UTF-8 and anchors; string, regex, number, duration, bytes and ip label filters) and all their pairs; relations: subset, partition by negation, commutation, idempotence, and = intersection, or = union, |= \"\" = identity; data = the %d-record alphabet of C01 with unique timestamps; storage offloads nothing (and / or / partition on the bare selector again with a storage that accepts every operator); subset / idempotence / partition again over 8 records that repeat (timestamp, line)", len(c19Bases), len(fs), len(c01All)))
 }
 
 func c19Replay(r *vkit.Run, v vkit.Violation) *vkit.Violation {
